@@ -233,7 +233,8 @@ Definition orphaned_trio (ri : rinfo) (f : flavour) : bool :=
 Definition may_act (ri : rinfo) (f : flavour) : bool :=
   negb (phase_ended (r_phase ri)) || orphaned_trio ri f.
 Definition may_start (ri : rinfo) (f : flavour) : bool :=
-  phase_live (r_phase ri) || orphaned_trio ri f.
+  phase_live (r_phase ri) || orphaned_trio ri f
+  || (negb (coroutine f) && phase_ended (r_phase ri)).    (* a thread registered while closing may come up late *)
 Definition may_clean (ri : rinfo) (f : flavour) : bool :=
   phase_closing (r_phase ri) || orphaned_trio ri f.
 
